@@ -91,6 +91,13 @@ func limbs(seed uint64) [4]uint64 {
 func mkEntry(h uint64, e int) starknet.WALEntry {
 	s := mix(uint64(e)*977 + 13)
 	round := types.Round(int64(e))
+	// extreme field values now and then: negative and minimal rounds, the largest step
+	switch e % 11 {
+	case 3:
+		round = types.Round(-int64(e))
+	case 7:
+		round = types.Round(-9223372036854775808)
+	}
 	hdr := starknet.MessageHeader{Height: types.Height(h), Round: round, Sender: starknet.Address(limbs(s))}
 	switch e % 5 {
 	case 0:
@@ -118,7 +125,11 @@ func mkEntry(h uint64, e int) starknet.WALEntry {
 		}
 		return &v
 	default:
-		t := starknet.WALTimeout{Step: types.Step(s % 3), Height: types.Height(h), Round: round}
+		step := types.Step(s % 3)
+		if e%13 == 4 {
+			step = 255
+		}
+		t := starknet.WALTimeout{Step: step, Height: types.Height(h), Round: round}
 		return &t
 	}
 }
@@ -175,6 +186,7 @@ type fileRec struct {
 	ends    []int  // ends[k] = offset just after the k-th record (ends[0] = 0)
 	trailer []byte // bytes seen after the last record (EOF trailer of a closed log, or block padding)
 	trailerN int   // … when the log had this many records
+	cur      bool  // the log belongs to the directory of the current process lifetime
 }
 
 type fileDesc struct {
@@ -300,7 +312,9 @@ func newRealSide(root string) *realSide {
 func (r *realSide) knownBatches() int {
 	n := 0
 	for _, fr := range r.files {
-		n += len(fr.ends) - 1
+		if fr.cur {
+			n += len(fr.ends) - 1
+		}
 	}
 	return n
 }
@@ -361,6 +375,7 @@ func (r *realSide) observe(dbPath string, learn bool) (diskDesc, error) {
 				fr = &fileRec{ends: []int{0}}
 				r.files[num] = fr
 			}
+			fr.cur = true
 			last := ends[len(ends)-1]
 			if len(ends) >= len(fr.ends) {
 				fr.ends = ends
@@ -455,6 +470,9 @@ func scanStarts(ll pebblewal.LogicalLog) (starts []int, garbage bool, stop int, 
 	}
 }
 
+// errNoBytes: the image needs bytes the harness has never seen on disk.
+var errNoBytes = errors.New("bytes unknown")
+
 func wmBytes(h uint64) []byte {
 	b := make([]byte, len(wmHeader)+8)
 	copy(b, wmHeader)
@@ -485,7 +503,8 @@ func (r *realSide) materialise(img diskDesc, tv tailVariant, rng *lib.RNG) (stri
 			if fr == nil && f.Batches == 0 {
 				fr = &fileRec{ends: []int{0}}
 			} else {
-				return "", fmt.Errorf("no bytes for log %d with %d batches", f.Num, f.Batches)
+				// expected for a batch that a failed flush never brought to the disk
+				return "", fmt.Errorf("%w: log %d with %d batches", errNoBytes, f.Num, f.Batches)
 			}
 		}
 		content := append([]byte(nil), fr.bytes[:fr.ends[f.Batches]]...)
